@@ -166,6 +166,9 @@ def api_stage(v, prop, d, drv, seed, tier):
     for i, b in enumerate(vlib.dedup(behs)):
         init = b[0]["st"] if b and b[0].get("a") == "Init" else {}
         scen.append(dict(sc=60000 + i, seed=seed * 100003 + 60000 + i, steps=b[1:], opt=dict(spaces=3, init=init, api=True)))
+        if i % 12 == 5:
+            # the real sync miner instead of the scripted one (it idles: no peers; its Stop takes up to a slot)
+            scen[-1]["opt"]["realminer"] = True
     sf, tf = os.path.join(d, "api.json"), os.path.join(d, "api.ndjson")
     json.dump(scen, open(sf, "w"))
     out, w = vlib.run_driver(drv, sf, tf, ["-workers", str(min(vlib.NCPU, 12)), "-stall", "20"], timeout=900)
@@ -178,6 +181,7 @@ def api_stage(v, prop, d, drv, seed, tier):
     for x in notes[:5]:
         log("NOTE (outside the listed properties): scenario %s: %s" % (traces[int(x[0]) - 1]["sc"], x[1]))
     v.cov["api_scenarios"], v.cov["api_accepted"], v.cov["api_miner_notes"] = len(scen), len(acc), len(notes)
+    v.cov["api_scenarios_with_the_real_miner"] = sum(1 for s_ in scen if s_["opt"].get("realminer"))
     v.cov["evaluations_api"] = len(scen)
     log("api handlers: %d scenarios in %.1fs, %d accepted, %d miner notes" % (len(scen), w, len(acc), len(notes)))
     if traces:
